@@ -39,11 +39,13 @@ SECOND_ENTRY = {"Snake": "r3c3t4000", "Knapsack": "n10s", "Connector": "g6a3t2un
 WIN_ENTRY = {"Snake": ["r2c2t4000"], "Sudoku": ["near"], "Maze": ["r4c7tNone"], "RubiksCube": ["n2s1t3"],
              "SlidingTilePuzzle": ["g2m1t3s"], "Sokoban": ["simplet120"], "Minesweeper": ["r2c2m1"],
              "LevelBasedForaging": ["g5a3f1v5l2nVNp0t40"], "Connector": ["g5a2t12rwc20s0"], "MMST": ["n12e18a3k2t30"],
-             "Cleaner": ["r3c3a2tNone"]}
+             "Cleaner": ["r3c3a2tNone"], "PacMan": ["small200"]}
 # entries that need the model's constructive policy to reach their completion endings
-SOLVE_STYLES = {"Sudoku", "Maze", "RubiksCube", "SlidingTilePuzzle", "Sokoban", "LevelBasedForaging", "Connector", "MMST",
+SOLVE_STYLES = {"PacMan", "Sudoku", "Maze", "RubiksCube", "SlidingTilePuzzle", "Sokoban", "LevelBasedForaging", "Connector", "MMST",
                 "Cleaner"}
-WIN_QUICK = ("Snake", "Sudoku", "Maze", "RubiksCube", "SlidingTilePuzzle", "Sokoban")
+WIN_QUICK = ("Snake", "Sudoku", "Maze", "RubiksCube", "SlidingTilePuzzle", "Sokoban", "PacMan")
+# long runs: (number of wrapper steps, cases) for entries whose completion ending needs a long purposeful episode
+LONG_RUNS = {("PacMan", "small200"): (420, 3)}
 
 
 class Rig:
@@ -78,6 +80,7 @@ class Rig:
             "fold_in(1)": jax.jit(lambda k: jax.random.fold_in(k, 1)),
         }
         self.viable = list(self.derivations)
+        self.auto_keys = {}
         # plain-Python (un-jitted) wrapper steps are rationed: one MID step and one LAST step, cheap environments only
         self.eager_left = {"mid": 1, "last": 1} if b.name in ("Snake", "Knapsack", "Game2048", "Maze", "TSP") else {}
         # instance diversity of this configuration: the "not the same instance again and again" oracle is only
@@ -236,17 +239,26 @@ def run_case(ctx, rig, key_words, plan=None, actions=None, fail=None, typed=Fals
         s, wts = ws, wts2
     if len(set(reset_keys)) != len(reset_keys):
         fail("keys.repeat", "two resets of one run used the same key", f"{reset_keys[:6]}")
+    # across the runs of this configuration: automatic resets of runs started from different keys must not fall onto
+    # one and the same key ("successive automatic resets start from different keys")
+    start = reset_keys[0]
+    for k in reset_keys[1:]:
+        first = rig.auto_keys.setdefault(k, start)
+        if first != start:
+            fail("keys.collapse", "automatic resets of runs started from different keys used the same key",
+                 f"reset key {list(k)} reached from start keys {list(first)} and {list(start)}")
     if rig.is_random and boundaries >= 6 and len(set(digests)) == 1:
         fail("instances.constant", "every automatic reset reproduced the same instance of a random generator",
              f"{boundaries} boundaries")
     ctx.count("boundaries", boundaries)
     ctx.count(f"runs_with_{min(boundaries, 3)}{'+' if boundaries >= 3 else ''}_boundaries")
     # the same run as one scan
-    if len(acts) == N_STEPS:
+    NS = len(acts)
+    if NS >= N_STEPS and actions is None or NS == N_STEPS:
         stacked = np.stack(acts, 0)
         _, (ss, tss) = rig.w_scan(s0_init, stacked)
         hss, htss = episodes.host((ss, tss))
-        for i in (0, N_STEPS // 2, N_STEPS - 1):
+        for i in (0, NS // 2, NS - 1):
             sl = jax.tree_util.tree_map(lambda x: x[i], (hss, htss))
             d = treecmp.diff(sl, outs[i], exact=False)
             ctx.evals()
@@ -254,7 +266,7 @@ def run_case(ctx, rig, key_words, plan=None, actions=None, fail=None, typed=Fals
                 fail("scan", "lax.scan rollout differs from per-step execution", f"step {i}: {d}")
                 break
         # three points of the run as one vmapped wrapper step
-        idx = [0, N_STEPS // 3, N_STEPS - 2]
+        idx = [0, NS // 3, NS - 2]
         prev_states = [s0_init if i == 0 else devs[i - 1] for i in idx]
         from jumanji.tree_utils import tree_transpose
 
@@ -286,6 +298,12 @@ def work_items(tier, flt):
             es = flt["entry"]
         for e in es:
             for flag in (False, True):
+                if (env, e) in LONG_RUNS:
+                    if flag or tier != "quick":
+                        ns, nc = LONG_RUNS[(env, e)]
+                        items.append({"env": env, "entry": e, "flag": flag, "n_steps": ns,
+                                      "n": max(2, int(nc * (1 if tier == "quick" else 3) * scale)), "cost": 8})
+                    continue
                 items.append({"env": env, "entry": e, "flag": flag,
                               "n": max(2, int((10 if tier == "quick" else 60) * scale)),
                               "cost": {"BinPack": 8, "MMST": 8, "PacMan": 4, "Connector": 3}.get(env, 1)})
@@ -338,8 +356,11 @@ def run_item(item, seed, tier):
         if env in SOLVE_STYLES and entry in WIN_ENTRY.get(env, []):
             styles = ("solve", "legalish", "solveish", "chaos", "solve", "late_illegal") if entry == SHORT_ENTRY[env] else \
                 ("solve", "solve", "solveish", "legal")
+        ns = int(item.get("n_steps", N_STEPS))
+        if ns != N_STEPS:
+            styles = ("solve",)
         hyp.drive({"key": episodes.keys(),
-                   "plan": episodes.plans(max_len=N_STEPS, min_len=N_STEPS, styles=styles)},
+                   "plan": episodes.plans(max_len=ns, min_len=ns, styles=styles)},
                   one, seed, item["n"])
     return ctx.result()
 
